@@ -189,3 +189,31 @@ func (h *harness) exhaustive() {
 	h.run.Oblige("exhaustive worlds over fixed (schema, document) pairs", "exhaustive", total, true, "")
 	h.run.Note("bounded-exhaustive: %d worlds over %d fixed (schema, document) pairs (cap %d assignments per pair)", total, len(fixedPairs), capCombos)
 }
+
+// leafSweep evaluates every boundary number (every Go integer and float kind at its own limits and
+// around ±2^31, 2^32, 2^53, 2^63, MaxUint64; integral / non-integral floats up to beyond the int64
+// range) as the result of an Int, Float, ID and Boolean field and as an item of [Int] and [ID!] lists.
+func (h *harness) leafSweep() {
+	N, L, NN := gqlgen.Named, gqlgen.ListOf, gqlgen.NonNull
+	s := &gqlgen.SchemaDesc{Query: "Query", Types: []gqlgen.TypeDesc{{Kind: "object", Name: "Query", Fields: []gqlgen.FieldDesc{
+		{Name: "i", Type: N("Int")}, {Name: "f", Type: N("Float")}, {Name: "id", Type: N("ID")}, {Name: "b", Type: N("Boolean")},
+		{Name: "s", Type: N("String")}, {Name: "li", Type: L(N("Int"))}, {Name: "lid", Type: L(NN(N("ID")))}, {Name: "lf", Type: NN(L(N("Float")))}}}}}
+	q := "{ i f id b s li lid lf }"
+	total := 0
+	vals := append(gqlgen.BoundaryNumbers(), gqlgen.BoolVal(true), gqlgen.BoolVal(false), gqlgen.StrVal("7"), gqlgen.WrongVal())
+	for _, v := range vals {
+		if h.failures >= maxFailures {
+			break
+		}
+		leaf := func() *gqlgen.Outcome { return gqlgen.Leaf(v) }
+		w := gqlgen.Obj("Query",
+			gqlgen.Entry{Key: "i", Out: leaf()}, gqlgen.Entry{Key: "f", Out: leaf()}, gqlgen.Entry{Key: "id", Out: leaf()},
+			gqlgen.Entry{Key: "b", Out: leaf()}, gqlgen.Entry{Key: "s", Out: leaf()},
+			gqlgen.Entry{Key: "li", Out: gqlgen.List(gqlgen.Leaf(gqlgen.IntVal(1)), leaf(), gqlgen.Null())},
+			gqlgen.Entry{Key: "lid", Out: gqlgen.List(gqlgen.Leaf(gqlgen.StrVal("a")), leaf())},
+			gqlgen.Entry{Key: "lf", Out: gqlgen.List(leaf(), leaf())})
+		h.check(&Case{Schema: s, Query: q, World: w, Note: "leaf sweep " + v.String()}, "leaf-sweep")
+		total++
+	}
+	h.run.Oblige("leaf sweep: every Go integer/float kind at its boundaries through Int, Float, ID, Boolean, String and list items", "exhaustive", total, true, "")
+}
